@@ -1,6 +1,9 @@
 // Native (cfg verif_replay) cross-check for C06 / the reader proper (parser.rs: nested lists, dotted tails, vectors,
 // the quote abbreviation) -- NOT proof, and not tied to a Verus obligation: the reader is not under contract.  It runs
-// in the thorough tier only; a text whose datum is not the one it denotes is reported as a violation with that text.
+// in both tiers; a text whose datum is not the one it denotes is reported as a violation with that text.
+// Second part (BOUNDED, stated bound): every token sequence of length <= 6 over the seven tokens ( ) . ' #( a 1 is laid out
+// as text, read by the real Lexer + Parser::current_datum, and compared -- structure AND number of tokens consumed -- with
+// an independent reference reader written below from R7RS 7.1.2 (<datum>, <list>, <vector>, <abbreviation>).
 
 fn read_back(text: &str) -> std::result::Result<String, String> {
     let t = format!("'{}", text);
@@ -15,6 +18,76 @@ fn read_back(text: &str) -> std::result::Result<String, String> {
         }
     })
     .map_err(|_| "PANIC".to_string())
+}
+
+// ---- reference reader (independent of parser.rs) ----
+#[derive(PartialEq, Debug, Clone)]
+enum RefTree { Sym(String), Int(i32), Nil, Cons(Box<RefTree>, Box<RefTree>), Vector(Vec<RefTree>) }
+
+const REF_TOKENS: [&str; 7] = ["(", ")", ".", "'", "#(", "a", "1"];
+
+// one datum starting at ts[i]: the tree and the index after its last token
+fn ref_datum(ts: &[usize], i: usize) -> Option<(RefTree, usize)> {
+    match REF_TOKENS[*ts.get(i)?] {
+        "a" => Some((RefTree::Sym("a".to_string()), i + 1)),
+        "1" => Some((RefTree::Int(1), i + 1)),
+        "(" => ref_list(ts, i + 1),
+        "#(" => {
+            let mut items = Vec::new();
+            let mut j = i + 1;
+            loop {
+                if REF_TOKENS[*ts.get(j)?] == ")" { return Some((RefTree::Vector(items), j + 1)); }
+                let (t, k) = ref_datum(ts, j)?;
+                items.push(t);
+                j = k;
+            }
+        }
+        "'" => {
+            let (t, j) = ref_datum(ts, i + 1)?;
+            Some((RefTree::Cons(Box::new(RefTree::Sym("quote".to_string())), Box::new(RefTree::Cons(Box::new(t), Box::new(RefTree::Nil)))), j))
+        }
+        _ => None, // ) and . do not start a datum
+    }
+}
+// the rest of a list after ( and zero or more data: <datum>* ) | <datum>+ . <datum> )
+fn ref_list(ts: &[usize], i: usize) -> Option<(RefTree, usize)> {
+    if REF_TOKENS[*ts.get(i)?] == ")" { return Some((RefTree::Nil, i + 1)); }
+    let (car, j) = ref_datum(ts, i)?;
+    if REF_TOKENS[*ts.get(j)?] == "." {
+        let (cdr, k) = ref_datum(ts, j + 1)?;
+        if REF_TOKENS[*ts.get(k)?] != ")" { return None; }
+        return Some((RefTree::Cons(Box::new(car), Box::new(cdr)), k + 1));
+    }
+    let (cdr, k) = ref_list(ts, j)?;
+    Some((RefTree::Cons(Box::new(car), Box::new(cdr)), k))
+}
+fn tree_of_datum(d: &crate::parser::Datum) -> RefTree {
+    use crate::parser::{DatumBody, Primitive};
+    use crate::parser::pair::GenericPair;
+    match &d.data {
+        DatumBody::Symbol(s) => RefTree::Sym(s.clone()),
+        DatumBody::Primitive(Primitive::Integer(k)) => RefTree::Int(*k),
+        DatumBody::Primitive(other) => RefTree::Sym(format!("unexpected primitive {:?}", other)),
+        DatumBody::Vector(v) => RefTree::Vector(v.iter().map(tree_of_datum).collect()),
+        DatumBody::Pair(p) => match p.as_ref() {
+            GenericPair::Empty => RefTree::Nil,
+            GenericPair::Some(car, cdr) => RefTree::Cons(Box::new(tree_of_datum(car)), Box::new(tree_of_datum(cdr))),
+        },
+    }
+}
+// what the real reader makes of the text: Ok(Some((tree, tokens left unread))) / Ok(None) at the end of the text / Err
+fn real_read(text: &str) -> std::result::Result<Option<(RefTree, usize)>, String> {
+    let t = text.to_string();
+    std::panic::catch_unwind(move || {
+        let mut parser = crate::parser::Parser::from_lexer(crate::parser::Lexer::from_char_stream(t.chars()));
+        parser.current = match parser.lexer.next().transpose() { Ok(c) => c, Err(e) => return Err(format!("lexer error {}", e)) };
+        match parser.current_datum() {
+            Ok(None) => Ok(None),
+            Ok(Some(d)) => { let tree = tree_of_datum(&d); Ok(Some((tree, parser.lexer.count()))) }
+            Err(e) => Err(format!("{}", e)),
+        }
+    })
+    .unwrap_or_else(|_| Err("PANIC".to_string()))
 }
 
 #[test]
@@ -42,8 +115,36 @@ fn verif_native_reader_witness() {
         let got = read_back(text);
         if got.as_ref().map(|g| g != want).unwrap_or(true) && bad.len() < 5 { bad.push(format!("{:?} reads as {:?}, expected {:?}", text, got, want)); }
     }
+    // BOUNDED part: all token sequences of length <= 6 over REF_TOKENS (137 257 texts)
+    let mut m = 0;
+    for len in 0..=6usize {
+        let mut ts = vec![0usize; len];
+        'seqs: loop {
+            m += 1;
+            let text = ts.iter().map(|&k| REF_TOKENS[k]).collect::<Vec<_>>().join(" ");
+            let want = ref_datum(&ts, 0).map(|(t, j)| (t, len - j));
+            let got = real_read(&text);
+            let agree = match (&want, &got) {
+                (Some(w), Ok(Some(g))) => w == g,
+                (None, Ok(None)) => len == 0,
+                (None, Err(e)) => len > 0 && e != "PANIC",
+                _ => false,
+            };
+            if !agree && bad.len() < 5 {
+                bad.push(format!("{:?} reads as {:?}, the reference reader gives {:?} (tree, tokens left unread)", text, got, want));
+            }
+            // next sequence
+            let mut p = len;
+            loop {
+                if p == 0 { break 'seqs; }
+                p -= 1;
+                if ts[p] + 1 < REF_TOKENS.len() { ts[p] += 1; break; }
+                ts[p] = 0;
+            }
+        }
+    }
     if bad.is_empty() {
-        println!("VERIF-NATIVE: ok {} texts: lists, dotted tails, vectors and quote abbreviations read as the data they denote", n);
+        println!("VERIF-NATIVE: ok {} texts + all {} token sequences of length <= 6 over ( ) . ' #( a 1: lists, dotted tails, vectors and quote abbreviations read as the data they denote", n, m);
     } else {
         println!("VERIF-NATIVE: disagree {}", bad.join(" ; "));
     }
